@@ -28,10 +28,12 @@ LEVEL = "exploration"
 EXTRA = {
     "qr": "qr",
     "region-store": "region-store",
+    "region-store-edge": "region-store-edge",
+    "region-store-2d-edge": "region-store-2d-edge",
     "create-only": "create-only",
     "rechunk-3stage": "rechunk-3stage",
 }
-QUICK = ["diamond", "multi-output", "rechunk-2stage", "store-target", "reduction-tree", "qr", "region-store", "create-only"]
+QUICK = ["diamond", "multi-output", "rechunk-2stage", "store-target", "reduction-tree", "qr", "region-store", "region-store-edge", "region-store-2d-edge", "create-only"]
 
 
 def build(name, spec, world, seed):
@@ -57,6 +59,19 @@ def build(name, spec, world, seed):
         za = zarr.create_array(st, shape=(8,), dtype="f8", chunks=(2,))
         za[...] = 0.0
         return list(cubed.store([a], [za], regions=[(slice(2, 6),)], compute=False))
+    if name == "region-store-edge":
+        # the region ends at the array edge in a partial chunk and spans two chunks
+        a = xp.negative(xp.asarray(mkdata((3,), "float64", 0, seed), chunks=(2,), spec=spec))
+        st = world.store("tgt")
+        za = zarr.create_array(st, shape=(5,), dtype="f8", chunks=(2,))
+        za[...] = 0.0
+        return list(cubed.store([a], [za], regions=[(slice(2, 5),)], compute=False))
+    if name == "region-store-2d-edge":
+        a = xp.negative(xp.asarray(mkdata((3, 5), "float64", 0, seed), chunks=(2, 2), spec=spec))
+        st = world.store("tgt")
+        za = zarr.create_array(st, shape=(5, 5), dtype="f8", chunks=(2, 2))
+        za[...] = 0.0
+        return list(cubed.store([a], [za], regions=[(slice(2, 5), slice(0, 5))], compute=False))
     if name == "create-only":
         return [xp.asarray(mkdata((4,), "float64", 0, seed), chunks=(2,), spec=spec)]
     if name == "rechunk-3stage":
@@ -241,7 +256,9 @@ def run(ctx):
     tier = ctx.tier
     names = QUICK if tier == "quick" else list(DAGS) + list(EXTRA)
     cfgs = [dict(dag=d, optimize=o, parallel=p, batch_size=bs) for d in names for o in (True, False) for p in (False, True) for bs in (None, 1, 2)]
-    cfgs += [dict(dag=d, optimize=False, parallel=p, batch_size=bs, futures=f) for d in names for f in ("threads", "processes") for p in (False, True) for bs in (None, 2)]
+    fnames = [d for d in names if d in ("diamond", "multi-output", "reduction-tree", "region-store-edge")] if tier == "quick" else names
+    cfgs += [dict(dag=d, optimize=False, parallel=p, batch_size=bs, futures=f) for d in fnames for f in ("threads", "processes") for p in (False, True)
+             for bs in ((2,) if tier == "quick" else (None, 2))]
     max_dev = 2 if tier == "quick" else 3
     limit = 1500 if tier == "quick" else 20000
     res = ctx.pmap(explore_cfg, perm([(c, max_dev, limit, ctx.seed) for c in cfgs], ctx.seed))
